@@ -28,6 +28,12 @@ from .c01 import line_ks
 from .c19 import patch_locks, unpatch_locks
 
 
+def _user_module_reductor(module):
+    import importlib
+
+    return (importlib.import_module, (module.__name__,))
+
+
 def table_snapshot():
     return {k: v for k, v in copyreg.dispatch_table.items()}
 
@@ -155,6 +161,13 @@ class C20(HistoryCheck):
         else:
             mode = "threads" if ctx.src.chance(self.P_THREADS) else "seq"
         ctx.case["mode"] = mode
+        # "exactly the entries it held before the library was used": in one run out of four the application has
+        # registered its own way of reducing modules beforehand (the usual recipe to pickle modules by name)
+        pre = ctx.case_in.get("preregistered", False) if ctx.replay else ctx.src.chance(0.25)
+        ctx.case["preregistered"] = pre
+        clean = table_snapshot()
+        if pre:
+            copyreg.dispatch_table[types.ModuleType] = _user_module_reductor
         self.base = table_snapshot()
         try:
             if mode == "seq":
@@ -163,6 +176,8 @@ class C20(HistoryCheck):
                 self.drive_threads(ctx)
         finally:
             repair_globals(self.base)
+            if pre:
+                repair_globals(clean)
 
     # -- sequential part -----------------------------------------------------------------
     def next_op(self, ctx, world, gen):
